@@ -31,11 +31,11 @@ def gen_timer_seqs(seed, n):
                 d = nxt + delay - t
                 ops.append("advance %d" % d)
                 t += d
-                tok = r.choice(["x", ":LALAL", "12345", ":some thing"]) if pattern == "token" else ":LALAL"
+                tok = r.choice(["x", ":LALAL", "12345", ":some thing", ":", ":é"]) if pattern == "token" else ":LALAL"
                 ops.append("line 1 " + esc("PONG " + tok))
                 answered += 1
                 if pattern == "pingcmd" and r.random() < 0.5:
-                    ops.append("line 1 " + esc("PING tok%d" % answered))
+                    ops.append("line 1 " + esc(r.choice(["PING tok%d" % answered, "PING :", "PING :a b"])))
             elif pattern == "unsolicited":
                 d = r.choice([300, 600, 1300])
                 ops.append("advance %d" % d)
